@@ -25,6 +25,12 @@ static void ins(void *p)
     while (tab[h] && tab[h] != (void *)1) h = (h + 1) % MAXP;
     tab[h] = p;
 }
+static int has(void *p)
+{
+    size_t h = ((size_t)p >> 4) % MAXP, n = 0;
+    while (tab[h] && n < MAXP) { if (tab[h] == p) return 1; h = (h + 1) % MAXP; n++; }
+    return 0;
+}
 static int del(void *p)
 {
     size_t h = ((size_t)p >> 4) % MAXP, n = 0;
@@ -94,7 +100,14 @@ void verif_free(void *p)
     if (known) { verif_frees++; verif_live--; } else verif_foreign_free++;
     pthread_mutex_unlock(&mu);
     if (known) { memset(p, 0xDD, malloc_usable_size(p)); free(p); }
-    else fprintf(stderr, "LEDGER: free of a pointer the library does not own (%p)\n", p);
+    else if (!getenv("VERIF_LEDGER_QUIET")) fprintf(stderr, "LEDGER: free of a pointer the library does not own (%p)\n", p);
+}
+
+int verif_owns(void *p)
+{
+    int r;
+    pthread_mutex_lock(&mu); r = p && has(p); pthread_mutex_unlock(&mu);
+    return r;
 }
 
 /* The library logs every refusal through syslog(3); with no syslogd in the sandbox each call
